@@ -139,6 +139,25 @@ class Dfa:
     def minus(self, other):
         return self.intersect(other.complement())
 
+    def trim(self):
+        """drops states from which no final state is reachable"""
+        rev = {}
+        for p, t in enumerate(self.trans):
+            for ch, q in t.items():
+                rev.setdefault(q, set()).add(p)
+        live = set(self.finals)
+        work = list(live)
+        while work:
+            q = work.pop()
+            for p in rev.get(q, ()):
+                if p not in live:
+                    live.add(p)
+                    work.append(p)
+        if self.start not in live:
+            return Dfa(self.alphabet, [{}], 0, set())
+        trans = [{ch: q for ch, q in t.items() if q in live} if p in live else {} for p, t in enumerate(self.trans)]
+        return Dfa(self.alphabet, trans, self.start, self.finals)
+
     def witness(self):
         """shortest accepted string or None"""
         seen = {self.start: ''}
@@ -228,7 +247,7 @@ def char_pred(node, flags):
                 preds.append(lambda c, a=a: norm(c) == norm(chr(a)))
             elif o == 'RANGE':
                 lo, hi = a
-                preds.append(lambda c, lo=lo, hi=hi: lo <= ord(c) <= hi or (ic and (lo <= ord(c.lower()) <= hi or lo <= ord(c.upper()) <= hi)))
+                preds.append(lambda c, lo=lo, hi=hi: any(lo <= ord(x) <= hi for x in ({c, c.lower(), c.upper()} if ic else {c}) if len(x) == 1))
             elif o == 'CATEGORY':
                 cat = str(a)
                 pat = {'CATEGORY_DIGIT': r'\d', 'CATEGORY_NOT_DIGIT': r'\D', 'CATEGORY_SPACE': r'\s', 'CATEGORY_NOT_SPACE': r'\S',
@@ -448,6 +467,43 @@ class Fst:
         return t
 
     @staticmethod
+    def drop_first(alphabet):
+        """s[1:]"""
+        t = Fst(alphabet)
+        s0, s1 = t.new(), t.new()
+        t.init = s0
+        for ch in alphabet:
+            t.add(s0, ch, '', s1)
+            t.add(s1, ch, ch, s1)
+        t.finals[s0] = ['']
+        t.finals[s1] = ['']
+        return t
+
+    @staticmethod
+    def drop_last(alphabet):
+        """s[:-1]"""
+        t = Fst(alphabet)
+        s0, s1 = t.new(), t.new()
+        t.init = s0
+        for ch in alphabet:
+            t.add(s0, ch, ch, s0)
+            t.add(s0, ch, '', s1)
+        t.finals[s0] = ['']      # only reachable-as-final for the empty string: s0 after copying everything would keep the last char
+        t.finals[s1] = ['']
+        # s0 must be final only for the empty input: split it
+        t2 = Fst(alphabet)
+        e, c, d = t2.new(), t2.new(), t2.new()
+        t2.init = e
+        for ch in alphabet:
+            t2.add(e, ch, ch, c)
+            t2.add(e, ch, '', d)
+            t2.add(c, ch, ch, c)
+            t2.add(c, ch, '', d)
+        t2.finals[e] = ['']
+        t2.finals[d] = ['']
+        return t2
+
+    @staticmethod
     def wrap(alphabet, prefix, suffix):
         t = Fst.identity(alphabet)
         t.init_out = prefix
@@ -457,6 +513,7 @@ class Fst:
     @staticmethod
     def restrict(alphabet, dfa):
         """identity on L(dfa)"""
+        dfa = dfa.trim()
         t = Fst(alphabet)
         for _ in dfa.trans:
             t.new()
@@ -630,7 +687,8 @@ def equivalent(T1, T2, max_delay=12):
                         conflicts.append((p2, q2, wsofar + ch))
                         continue
                     if len(d[0]) + len(d[1]) > max_delay:
-                        overflow = wsofar + ch
+                        if _completion(T1, T2, p2, q2) is not None:
+                            overflow = wsofar + ch
                         continue
                     if key not in seen:
                         seen[key] = wsofar + ch
